@@ -53,6 +53,7 @@ func tText(c context, s []byte) (context, int) {
 			// Element name not needed if we are at the end of the element.
 			if !end {
 				ret.element = e
+				ret.element.nameUnfinished = j == len(s)
 			}
 			return ret, j
 		}
